@@ -166,7 +166,12 @@ def gen_main(module, struct_name, param_tuples, alphabets, extra_sections="", ob
 
 def _cpp_param(module, ptype, value):
     if ptype[0] == "enum":
-        return "static_cast<%s::%s>(%dLL)" % (cpp_ns(module), ptype[1], value)
+        name = ptype[1]
+        ns = cpp_ns(module)
+        if "." in name:
+            alias, name = name.split(".", 1)
+            ns = cpp_ns(dict(module.imports)[alias])
+        return "static_cast<%s::%s>(%dLL)" % (ns, name, value)
     return "%dLL" % value
 
 
